@@ -55,6 +55,19 @@ def gen_hbank(rng, now, kind="mixed"):
     return toks + extra, {"dec": toks[11], "price": price, "awi": awi, "lwi": lwi, "tag": toks[10], "tier": tier}
 
 
+AMT_POS = {1: 3, 2: 3, 3: 3, 4: 3, 17: 5}
+
+
+def clamp_op(o):
+    o = list(o)
+    i = AMT_POS.get(o[0])
+    if i is not None:
+        o[i] = max(0, min(int(o[i]), 1 << 61))
+    if o[0] == 19:
+        o[2] = max(0, min(int(o[2]), 1 << 100))
+    return o
+
+
 def gen_case_random(rng, max_ops=26, kind="mixed"):
     nb = rng.choice([2, 2, 3])
     na = rng.choice([2, 3, 4])
@@ -157,7 +170,7 @@ def gen_case_random(rng, max_ops=26, kind="mixed"):
         toks += bk
     toks.append(len(ops))
     for o in ops:
-        toks += o
+        toks += clamp_op(o)
     return " ".join(map(str, toks))
 
 
@@ -251,7 +264,7 @@ def gen_case_scenario(rng, max_ops=26):
         toks += bk
     toks.append(len(ops))
     for o in ops:
-        toks += o
+        toks += clamp_op(o)
     return " ".join(map(str, toks))
 
 
